@@ -25,6 +25,8 @@ pub struct Matcher {
     pub system: String,
     pub kind: String,
     pub core: String,
+    /// behavioural signatures of the core per (discipline, transition kinds); empty = not recorded
+    pub sigs: BTreeMap<String, String>,
 }
 pub struct Finding {
     pub id: String,
@@ -51,7 +53,12 @@ pub fn load_findings() -> Vec<Finding> {
                 .cloned()
                 .unwrap_or_default()
                 .iter()
-                .map(|m| Matcher { system: m["system"].as_str().unwrap().to_string(), kind: m["kind"].as_str().unwrap().to_string(), core: m["core"].as_str().unwrap().to_string() })
+                .map(|m| Matcher {
+                    system: m["system"].as_str().unwrap().to_string(),
+                    kind: m["kind"].as_str().unwrap().to_string(),
+                    core: m["core"].as_str().unwrap().to_string(),
+                    sigs: m["sigs"].as_object().map(|o| o.iter().map(|(k, v)| (k.clone(), v.as_str().unwrap_or("").to_string())).collect()).unwrap_or_default(),
+                })
                 .collect(),
         });
     }
@@ -134,9 +141,19 @@ pub fn finish(prop: &str, tier: &str, seed: i64, jobs: &[Box<dyn JobT>], outcome
                 continue;
             }
             let mut hit = None;
+            let (sig_key, sig) = if c.core_key == "*" { (String::new(), String::new()) } else { jobs[ji].signature(&c.core) };
+            let mut sig_changed = false;
             for f in findings.iter().filter(|f| f.property == prop) {
-                if f.matchers.iter().any(|m| m.system == o.system && m.kind == c.kind && (m.core == "*" || m.core == c.core_key)) {
-                    hit = Some(f);
+                for m in f.matchers.iter().filter(|m| m.system == o.system && m.kind == c.kind && (m.core == "*" || m.core == c.core_key)) {
+                    // a listed core must also still behave as recorded (same number of distinct states and reads
+                    // per knowledge set, same failures): otherwise it fails *differently* and is reported
+                    if m.core == "*" || m.sigs.is_empty() || m.sigs.get(&sig_key) == Some(&sig) {
+                        hit = Some(f);
+                    } else {
+                        sig_changed = true;
+                    }
+                }
+                if hit.is_some() {
                     break;
                 }
             }
@@ -160,6 +177,7 @@ pub fn finish(prop: &str, tier: &str, seed: i64, jobs: &[Box<dyn JobT>], outcome
                     let rec = json!({
                         "property": prop, "tier": tier, "job": o.label, "system": o.system, "kind": c.kind,
                         "core_key": c.core_key, "core": abs_to_json(&c.core), "core_text": c.core_text,
+                        "listed_core_behaves_differently": sig_changed, "signature": {"key": sig_key.clone(), "value": sig.clone()},
                         "example_history": abs_to_json(&c.example.hist), "example_text": c.example_text,
                         "example_detail": c.example.detail, "failing_histories_with_this_core": c.histories,
                         "standalone_rust_test": rust.as_ref().map(|_| name.replace(".json", ".rs")), "replay_of_core": t1, "replay_failure_details": f1.iter().map(|f| format!("{}: {}", f.kind, f.detail)).collect::<Vec<_>>(), "deterministic_replay": same,
@@ -170,7 +188,7 @@ pub fn finish(prop: &str, tier: &str, seed: i64, jobs: &[Box<dyn JobT>], outcome
                         machinery_error = true;
                     }
                     violations.push(format!("VIOLATION property={} replay={}", prop, path.display()));
-                    unmatched.push(json!({"system": o.system, "kind": c.kind, "core": c.core_key, "text": c.core_text, "detail": c.example.detail, "histories": c.histories, "job": o.label}));
+                    unmatched.push(json!({"sig_key": sig_key, "sig": sig, "listed_core_behaves_differently": sig_changed, "system": o.system, "kind": c.kind, "core": c.core_key, "text": c.core_text, "detail": c.example.detail, "histories": c.histories, "job": o.label}));
                 }
             }
         }
